@@ -38,6 +38,7 @@ CASES = [
     ("C06", "commit_verdict", H, "offset_manager.go", "handleResponse",
      "\t\t\tcase ErrOffsetMetadataTooLarge, ErrInvalidCommitOffsetSize:\n\t\t\t\t// nothing we can do about this, just tell the user and carry on\n\t\t\t\tpom.handleError(err)\n\t\t\tcase ErrOffsetsLoadInProgress:\n\t\t\t\t// nothing wrong but we didn't commit, we'll get it next time round\n",
      "\t\t\tcase ErrOffsetsLoadInProgress:\n\t\t\tcase ErrInvalidCommitOffsetSize, ErrOffsetMetadataTooLarge:\n\t\t\t\tpom.handleError(err)\n", "reordered case clauses and case constants"),
+    ("C06", "mark_offset", H, "offset_manager.go", "MarkOffset", "\tif offset > pom.offset {\n\t\tpom.offset = offset\n", "\t// a comment\n\n\tif (offset) > (pom.offset) { // another\n\n\t\tpom.offset = (offset)\n", "layout, comments and redundant parentheses only"),
     # ---------------------------------------------------------------- C16
     ("C16", "is_at_least", S, "utils.go", "IsAtLeast", "if v.version[i] > other.version[i] {\n\t\t\treturn true", "if v.version[i] > other.version[i] {\n\t\t\treturn false", "flipped result"),
     ("C16", "is_at_least", S, "utils.go", "IsAtLeast", "\t}\n\treturn true\n", "\t}\n\treturn false\n", "equal versions not at least"),
@@ -56,9 +57,9 @@ CASES = [
     ("C16", "would_overflow", S, "produce_set.go", "wouldOverflow", "ps.parent.conf.Producer.Flush.MaxMessages > 0 && ", "", "dropped guard"),
     ("C16", "would_overflow", S, "produce_set.go", "wouldOverflow", "IsAtLeast(V0_11_0_0)", "IsAtLeast(V0_10_0_0)", "other version constant"),
     ("C16", "would_overflow", S, "utils.go", "", "V0_11_0_0 = newKafkaVersion(0, 11, 0, 0)", "V0_11_0_0 = newKafkaVersion(0, 11, 0, 1)", "version variable initialised differently"),
-    ("C16", "dispatch_admit", S, "async_producer.go", "dispatcher", "if msg.byteSize(version) > p.conf.Producer.MaxMessageBytes {", "if msg.byteSize(version) >= p.conf.Producer.MaxMessageBytes {", "comparison > to >="),
-    ("C16", "dispatch_admit", S, "async_producer.go", "dispatcher", "p.returnError(msg, ErrMessageSizeTooLarge)", "p.returnError(msg, ErrInvalidMessage)", "other error"),
-    ("C16", "dispatch_admit", S, "async_producer.go", "dispatcher", "} else if msg.Headers != nil {", "} else if msg.Headers == nil {", "flipped nil test"),
+    ("C16", "dispatch_check", S, "async_producer.go", "dispatcher", "if msg.byteSize(version) > p.conf.Producer.MaxMessageBytes {", "if msg.byteSize(version) >= p.conf.Producer.MaxMessageBytes {", "comparison > to >="),
+    ("C16", "dispatch_check", S, "async_producer.go", "dispatcher", "p.returnError(msg, ErrMessageSizeTooLarge)", "p.returnError(msg, ErrInvalidMessage)", "other error"),
+    ("C16", "dispatch_check", S, "async_producer.go", "dispatcher", "} else if msg.Headers != nil {", "} else if msg.Headers == nil {", "flipped nil test"),
     ("C16", "would_overflow", H, "produce_set.go", "wouldOverflow",
      "\tswitch {\n\t// Would we overflow our maximum possible size-on-the-wire? 10KiB is arbitrary overhead for safety.\n\tcase ps.bufferBytes+msg.byteSize(version) >= int(MaxRequestSize-(10*1024)):",
      "\tsz := msg.byteSize(version)\n\tswitch {\n\tcase ps.bufferBytes+sz >= int(MaxRequestSize-(10*1024)):", "hoisted local for the message size"),
@@ -198,6 +199,8 @@ def worker(wt, index, nworkers, result_file):
     results = []
     for n, case in enumerate(CASES):
         if n % nworkers != index:
+            continue
+        if os.environ.get("SELFTEST_ONLY") and str(n) not in os.environ["SELFTEST_ONLY"].split(","):
             continue
         group, target, kind, file, fn, old, new, what = case
         path = os.path.join(wt, file)
